@@ -113,6 +113,9 @@ impl C13 {
                 let cmd = format!("go {}", fields.join(" "));
                 let (own, inc) = if *black { (*btime, *binc) } else { (*wtime, *winc) };
                 let share = (own as f64 * 0.02) as u64;
+                if *movestogo == 0 && own > 7500 && inc < own && inc + own / 50 > own + 150 {
+                    ev.class("increment_below_the_clock_budget_formula_above_it");
+                }
                 (cmd, own, *black, share + inc < 155 || inc > own)
             }
             ClockCase::MoveTime { movetime, black } => (format!("go movetime {}", movetime), *movetime, *black, *movetime < 5),
@@ -217,7 +220,7 @@ impl Prop for C13 {
     }
 
     fn rule(&self) -> String {
-        "Cases: `go wtime W btime B winc X binc Y` (four field orders; one time in three an increment field whose value is 0 is left out, as GUIs that send increments only when there are any do; one time in three with a `movestogo N` field, N from 1 to 80, at the end, the front or after the first field) with W, B log-uniform over 0..10^7 plus boundary values around 150/155 ms and the 7.5 s clock, increments 0 / small / clock-like / up to 10^5, either side to move; `go movetime T`, T in 0..2000 with boundary values; and (one case in five) a fixed move time together with the four clock fields, in any of five places among them and optionally with `movestogo` / `depth` fields, T kept at or below the mover's clock so that the limit is T under either reading of the statement. One command in four additionally carries a standard field this engine does not implement (`ponder`, `searchmoves` with 1-4 moves, `nodes N`, `mate N`) in front of or behind the rest. Through the real binary: the `info time N` line must exist and N must not exceed the mover's remaining time (resp. T), hence be finite and non-negative; allotments up to 400 ms are run to completion and `bestmove` must arrive (later than N + 5 s = violation, between 2 and 5 s = inconclusive); for longer ones only the allotted figure is judged (isready / stop / quit behaviour belongs to C14). evaluations = go commands judged. Non-trivial: 2 % of the clock plus increment below 155 ms, or increment above the clock, or movetime below 5; distinct by command and side.".into()
+        "Cases: `go wtime W btime B winc X binc Y` (four field orders; one time in three an increment field whose value is 0 is left out, as GUIs that send increments only when there are any do; one time in three with a `movestogo N` field, N from 1 to 80, at the end, the front or after the first field) with W, B log-uniform over 0..10^7 plus boundary values around 150/155 ms and the 7.5 s clock, increments 0 / small / clock-like / up to 10^5 / within 0-400 ms (or 0-3200 ms) below or above the mover's own clock, either side to move; `go movetime T`, T in 0..2000 with boundary values; and (one case in five) a fixed move time together with the four clock fields, in any of five places among them and optionally with `movestogo` / `depth` fields, T kept at or below the mover's clock so that the limit is T under either reading of the statement. One command in four additionally carries a standard field this engine does not implement (`ponder`, `searchmoves` with 1-4 moves, `nodes N`, `mate N`) in front of or behind the rest. Through the real binary: the `info time N` line must exist and N must not exceed the mover's remaining time (resp. T), hence be finite and non-negative; allotments up to 400 ms are run to completion and `bestmove` must arrive (later than N + 5 s = violation, between 2 and 5 s = inconclusive); for longer ones only the allotted figure is judged (isready / stop / quit behaviour belongs to C14). evaluations = go commands judged. Non-trivial: 2 % of the clock plus increment below 155 ms, or increment above the clock, or movetime below 5; distinct by command and side.".into()
     }
 
     fn assumptions(&self) -> Vec<String> {
@@ -249,6 +252,14 @@ impl Prop for C13 {
             1 => (prop::sample::select(vec![(0u64, 0u64), (0, 1), (1, 0), (1, 1), (0, 7499), (7499, 0)]), inc_value(), inc_value(), any::<bool>(), 0u8..4, 0u8..4)
                 .prop_map(|((wtime, btime), winc, binc, black, order, omit)| ClockCase::Clock { wtime, btime, winc, binc, black, order, omit, movestogo: 0 }),
             6 => (clock_value(), clock_value(), inc_value(), inc_value(), any::<bool>(), 0u8..4, prop_oneof![2 => Just(0u8), 1 => 1u8..4], prop_oneof![2 => Just(0u8), 1 => 1u8..28]).prop_map(|(wtime, btime, winc, binc, black, order, omit, movestogo)| ClockCase::Clock { wtime, btime, winc, binc, black, order, omit, movestogo }),
+            // increments within a few hundred milliseconds of the clock they belong to, on either side of it: the
+            // band in which "2 % of the clock plus the increment minus 150" crosses the clock itself
+            2 => (clock_value(), clock_value(), 0u64..400, 0u64..400, any::<bool>(), any::<bool>(), 0u8..4, any::<bool>())
+                .prop_map(|(wtime, btime, d1, d2, below, black, order, far)| {
+                    let d1 = if far { d1 * 8 } else { d1 };
+                    let near = |c: u64, d: u64| if below { c.saturating_sub(d) } else { c + d };
+                    ClockCase::Clock { wtime, btime, winc: near(wtime, d1), binc: near(btime, if far { d2 * 8 } else { d2 }), black, order, omit: 0, movestogo: 0 }
+                }),
             2 => (prop_oneof![2 => prop::sample::select(vec![0u64, 1, 4, 5, 6, 10, 50, 200]), 1 => 0u64..2000], any::<bool>()).prop_map(|(movetime, black)| ClockCase::MoveTime { movetime, black }),
             2 => (clock_value(), clock_value(), inc_value(), inc_value(), prop_oneof![1 => prop::sample::select(vec![0u64, 1, 5, 6, 50, 200]), 1 => 0u64..3000], any::<bool>(), 0u8..5, 0u8..4)
                 .prop_map(|(wtime, btime, winc, binc, movetime, black, place, extra)| ClockCase::Both { wtime, btime, winc, binc, movetime, black, place, extra }),
